@@ -158,3 +158,111 @@ theorem handleAll_err_none (v : Variant) (c : Ctx) (rs : List Resp)
     rw [this.2, ht1, hc]; push_cast; split <;> omega
 
 end LinVerif.RootMerge
+
+namespace LinVerif.RootMerge
+
+/-! ### not-found responses do not touch the data part -/
+
+/-- the part of the context that data responses build -/
+def Ctx.data (c : Ctx) : Option Agg × Nat × List Spec := (c.agg, c.hdrCap, c.allSpecs)
+
+theorem handle_data_notFound (v : Variant) (c : Ctx) : (c.handle v .notFound).data = c.data := by
+  simp only [Ctx.handle, Ctx.absorb, Ctx.data]
+  split <;> rfl
+
+theorem handle_data_congr (v : Variant) (c c' : Ctx) (r : Resp) (h : c.data = c'.data) :
+    (c.handle v r).data = (c'.handle v r).data := by
+  simp only [Ctx.data, Prod.mk.injEq] at h
+  obtain ⟨h1, h2, h3⟩ := h
+  cases r with
+  | ok p =>
+    simp only [Ctx.handle, Ctx.absorb, Ctx.data]
+    by_cases hs : p.specs.isEmpty = true
+    · simp [hs, h1, h2, h3]
+    · simp [hs, h1, h3]
+  | notFound => rw [handle_data_notFound, handle_data_notFound]; simp [Ctx.data, h1, h2, h3]
+  | error => simp [Ctx.handle, Ctx.absorb, Ctx.data, h1, h2, h3]
+  | bad => simp [Ctx.handle, Ctx.absorb, Ctx.data, h1, h2, h3]
+
+theorem handleAll_cons (v : Variant) (c : Ctx) (r : Resp) (rs : List Resp) :
+    c.handleAll v (r :: rs) = (c.handle v r).handleAll v rs := rfl
+
+/-- dropping the not-found responses does not change what the data responses build -/
+theorem handleAll_data_filter (v : Variant) (c c' : Ctx) (rs : List Resp) (h : c.data = c'.data) :
+    (c.handleAll v rs).data = (c'.handleAll v (rs.filter (fun r => r != .notFound))).data := by
+  induction rs generalizing c c' with
+  | nil => exact h
+  | cons r rs ih =>
+    by_cases hr : r = .notFound
+    · subst hr
+      rw [handleAll_cons]
+      have : (Resp.notFound :: rs).filter (fun r => r != .notFound) = rs.filter (fun r => r != .notFound) := by
+        simp
+      rw [this]
+      exact ih _ _ ((handle_data_notFound v c).trans h)
+    · have : (r :: rs).filter (fun r => r != .notFound) = r :: rs.filter (fun r => r != .notFound) := by
+        simp [hr]
+      rw [this, handleAll_cons, handleAll_cons]
+      exact ih _ _ (handle_data_congr v c c' r h)
+
+theorem countNF_cons' (r : Resp) (rs : List Resp) :
+    countNF (r :: rs) = countNF rs + (if r = .notFound then 1 else 0) := by
+  simp only [countNF, List.countP_cons]
+  by_cases h : r = .notFound <;> simp [h]
+
+theorem countNF_filter_ne (rs : List Resp) : countNF (rs.filter (fun r => r != .notFound)) = 0 := by
+  simp [countNF, List.countP_filter]
+
+theorem countNF_lt_of_exists (rs : List Resp) (h : ∃ r ∈ rs, r ≠ .notFound) : countNF rs < rs.length := by
+  induction rs with
+  | nil => obtain ⟨r, hr, -⟩ := h; cases hr
+  | cons x xs ih =>
+    rw [countNF_cons', List.length_cons]
+    by_cases hx : x = .notFound
+    · rw [if_pos hx]
+      obtain ⟨r, hr, hne⟩ := h
+      rcases List.mem_cons.mp hr with rfl | hr
+      · exact absurd hx hne
+      · have := ih ⟨r, hr, hne⟩; omega
+    · rw [if_neg hx]
+      have : countNF xs ≤ xs.length := List.countP_le_length
+      omega
+
+/-- every target answers not-found: the last one turns into the error -/
+theorem handleAll_allNotFound (v : Variant) (k : Nat) (c : Ctx) (he : c.err = none) (ht : c.tolerant = (k + 1 : Nat)) :
+    (c.handleAll v (List.replicate (k + 1) .notFound)).err = some .notFound := by
+  induction k generalizing c with
+  | zero =>
+    simp only [Ctx.handleAll, List.replicate, List.foldl, Ctx.handle, Ctx.absorb]
+    rw [if_neg (by simp [ht])]
+  | succ k ih =>
+    rw [List.replicate_succ, handleAll_cons]
+    apply ih
+    · simp only [Ctx.handle, Ctx.absorb]
+      rw [if_pos (by rw [ht]; push_cast; omega)]
+      exact he
+    · simp only [Ctx.handle, Ctx.absorb]
+      rw [if_pos (by rw [ht]; push_cast; omega)]
+      simp [ht]
+
+theorem absorb_done (v : Variant) (c : Ctx) (r : Resp) : (Ctx.absorb v c r).done = c.done := by
+  cases r with
+  | ok p => simp only [Ctx.absorb]; split <;> rfl
+  | notFound => simp only [Ctx.absorb]; split <;> rfl
+  | error => rfl
+  | bad => rfl
+
+theorem handle_done_mono (v : Variant) (c : Ctx) (r : Resp) (h : c.done = true) :
+    (c.handle v r).done = true := by
+  simp [Ctx.handle, absorb_done, h]
+
+/-- once an error is recorded it stays recorded (the kind may change) -/
+theorem handle_err_isSome (v : Variant) (c : Ctx) (r : Resp) (h : c.err.isSome = true) :
+    (c.handle v r).err.isSome = true := by
+  cases r with
+  | ok p => simp only [Ctx.handle, Ctx.absorb]; split <;> simpa using h
+  | notFound => simp only [Ctx.handle, Ctx.absorb]; split <;> simp [h]
+  | error => rfl
+  | bad => rfl
+
+end LinVerif.RootMerge
